@@ -15,6 +15,7 @@ import (
 	"strconv"
 	"strings"
 	"sync"
+	"time"
 	"unsafe"
 )
 
@@ -369,6 +370,16 @@ func (s *nsched) point() {
 	s.cur = next.id
 	next.resume <- struct{}{}
 	if !me.done {
+		if me.id == 0 {
+			// the harness's own thread waits for the others: a stalled replay must not hang the test
+			select {
+			case <-me.resume:
+			case <-time.After(60 * time.Second):
+				s.diverge = "replay stalled (no thread handed the baton back within 60 s)"
+				panic(stop{"schedule replay stalled"})
+			}
+			return
+		}
 		<-me.resume
 	}
 }
